@@ -50,10 +50,18 @@ def check_batch(run, b, nrand, valgrind=False):
         return
     lines = []
     meta = []
-    used = {(i, bus) for _, i, bus in b.can_bindings}
-    all_buses = sorted({bus for _, _, bus in b.can_bindings})
+    nobus_ids = [i for n, i, bus in b.can_bindings if bus is None]
+    bindings = [x for x in b.can_bindings if x[2] is not None]
+    used = {(i, bus) for _, i, bus in bindings}
+    all_buses = sorted({bus for _, _, bus in bindings})
     r = run.rng("probes", b.bi)
-    for name, fid, bus in b.can_bindings:
+    for nid in nobus_ids:
+        for pbus in all_buses[:2] + ["zz"]:
+            frame = "%d %s %d %s" % (nid, bus_hex(pbus), 8, "00" * 8)
+            for op in ("CSD", "CDD"):
+                lines.append(op + " " + frame)
+                meta.append((op + "-unknown", "the id of a binding that declares no bus", nid, pbus, None, None, 0))
+    for name, fid, bus in bindings:
         t = ("struct", name)
         for vi, v in enumerate(b.values(run, name, nrand)):
             canon = ref.encode(sch, name, v)
@@ -75,7 +83,7 @@ def check_batch(run, b, nrand, valgrind=False):
         other = [x for x in all_buses if (fid, x) not in used]
         if other:
             probes.append(("same id, other bus", fid, other[0]))
-        unknown_id = next(x for x in range(2047, -1, -1) if all(x != i for _, i, _ in b.can_bindings))
+        unknown_id = next(x for x in range(2046, -1, -1) if all(x != i for _, i, _ in b.can_bindings))
         probes.append(("unknown id", unknown_id, bus))
         last = bus[:-1] + ("z" if bus[-1] != "z" else "y")
         if (fid, last) not in used:
